@@ -181,13 +181,16 @@ package handler
 //@ requires[C07] ReadableWF(message)
 //@ modifies message
 //@ ensures[C07] ReadableWF(message)
+//@ ensures[C15] message.RawData == old(message.RawData) && message.MessageType == old(message.MessageType) && message.LogLevel == old(message.LogLevel)
+//@ ensures[C15] old(message.Readable) != nil ==> *message == old(*message)
 
 //@ func (*Message).String
 //@ requires[C07] message != nil
 //@ requires[C07] ReadableWF(message)
 //@ modifies message
 //@ arith wrap
-//@ ensures[C15] message.RawData == old(message.RawData)
+//@ ensures[C15] message.RawData == old(message.RawData) && message.MessageType == old(message.MessageType) && message.LogLevel == old(message.LogLevel)
+//@ ensures[C15] old(message.Readable) != nil ==> *message == old(*message)
 
 // ---- time: C06 (rollovers) and C17 (any start time in the week) ----------------
 // The handler's time state is related to ghost truth: T is the start time, and per
